@@ -153,6 +153,7 @@ func (a *anchors) get() int  { a.mu.Lock(); defer a.mu.Unlock(); return a.ver }
 type recorder struct {
 	mu     sync.Mutex
 	b      *tv.Batch
+	hb     *tv.Batch // hook-level trace (implementation level): the observable events plus every decision point passed
 	closed bool
 }
 
@@ -162,11 +163,33 @@ func (r *recorder) ev(name string, m tv.M) {
 	if r.closed {
 		return
 	}
+	if r.hb != nil {
+		cp := tv.M{}
+		for k, v := range m {
+			cp[k] = v
+		}
+		r.hb.Ev(name, cp)
+	}
 	r.b.Ev(name, m)
 }
 
+// hook records a decision point of the code under test (hook-level trace only).
+func (r *recorder) hook(point string) {
+	r.mu.Lock()
+	defer r.mu.Unlock()
+	if r.closed || r.hb == nil {
+		return
+	}
+	r.hb.Ev(point, tv.M{})
+}
+
+// slots of the implementation-shaped model (TraceSpiffeImpl.cfg: NReady = NGet = NCons = modelSlots)
+const modelSlots = 6
+
 type result struct {
 	trace      int
+	htrace     int  // index in the hook-level batch
+	hbound     bool // the scenario fits the model's process slots
 	schedule   []string
 	err        error
 	stuck      int
@@ -232,10 +255,37 @@ func observeFiles(target string, kr *keyring) tv.M {
 
 var runCounter int
 
-func runScenario(b *tv.Batch, sc scenario, seed int64, ca *authority, tmp string) result {
+func runScenario(b, hb *tv.Batch, sc scenario, seed int64, ca *authority, tmp string) result {
 	rng := mrand.New(mrand.NewSource(seed))
-	rec := &recorder{b: b}
+	rec := &recorder{b: b, hb: hb}
 	tr := b.Start(tv.M{"scenario": sc.Name, "dir": sc.Dir, "seed": seed})
+	htr := hb.Start(tv.M{"scenario": sc.Name, "dir": sc.Dir, "seed": seed})
+	// model slots: the k-th pure Ready client is Ready slot k, the k-th pure Get client Get slot k, consumer k has slots modelSlots+k
+	slotR, slotG := make([]int, len(sc.Clients)), make([]int, len(sc.Clients))
+	hbound := true
+	{
+		nr, ng, nc := 0, 0, 0
+		for i, ops := range sc.Clients {
+			if len(ops) == 0 {
+				continue
+			}
+			switch ops[0].Op {
+			case "ready":
+				nr++
+				slotR[i] = nr
+			case "get":
+				ng++
+				slotG[i] = ng
+			case "cons":
+				nc++
+				slotR[i], slotG[i] = modelSlots+nc, modelSlots+nc
+			}
+			for _, o := range ops {
+				hbound = hbound && (o.Op == ops[0].Op)
+			}
+		}
+		hbound = hbound && nr <= modelSlots && ng <= modelSlots && nc <= modelSlots
+	}
 	ctl := sched.New("spiffe.run.beforeLock", "spiffe.get.enter", "spiffe.get.locked", "issuer.answer")
 	kr := &keyring{}
 	runCounter++
@@ -308,9 +358,13 @@ func runScenario(b *tv.Batch, sc scenario, seed int64, ca *authority, tmp string
 	s.VerifSetClock(clk)
 	src, _ := spiffecontext.From(spiffecontext.With(context.Background(), s))
 
-	spiffe.VerifHook = func(point string, kv ...any) { ctl.Point(point, kv...) }
+	spiffe.VerifHook = func(point string, kv ...any) {
+		rec.hook(point)
+		ctl.Point(point, kv...)
+	}
 	if sc.Dir {
 		dir.VerifHook = func(point, _ string) {
+			rec.hook("dir." + point)
 			switch point {
 			case "mknew", "file", "symlink", "rename", "removeprev":
 				rec.ev("files", observeFiles(target, kr))
@@ -347,9 +401,9 @@ func runScenario(b *tv.Batch, sc scenario, seed int64, ca *authority, tmp string
 		return n
 	}
 	nextR, nextG := 0, 0
-	doGet := func(g, after int) {
+	doGet := func(g, pg int) {
 		svid, err := src.GetX509SVID()
-		m := tv.M{"g": g, "svid": 0, "key": 0, "err": err != nil}
+		m := tv.M{"g": g, "pg": pg, "svid": 0, "key": 0, "err": err != nil}
 		if err == nil && svid != nil && len(svid.Certificates) > 0 {
 			m["svid"] = int(svid.Certificates[0].SerialNumber.Int64())
 			if svid.PrivateKey != nil {
@@ -374,31 +428,31 @@ func runScenario(b *tv.Batch, sc scenario, seed int64, ca *authority, tmp string
 			case "ready":
 				nextR++
 				r := nextR
-				rec.ev("ready_call", tv.M{"r": r})
+				rec.ev("ready_call", tv.M{"r": r, "pr": slotR[ci]})
 				c.cur = ctl.Go(name, func() {
 					err := s.Ready(callCtx)
-					rec.ev("ready_ret", tv.M{"r": r, "err": err != nil})
+					rec.ev("ready_ret", tv.M{"r": r, "pr": slotR[ci], "err": err != nil})
 				})
 				c.pending = append(c.pending, c.cur)
 			case "get":
 				nextG++
 				g := nextG
-				rec.ev("get_call", tv.M{"g": g, "after": 0})
-				c.cur = ctl.Go(name, func() { doGet(g, 0) })
+				rec.ev("get_call", tv.M{"g": g, "pg": slotG[ci], "after": 0})
+				c.cur = ctl.Go(name, func() { doGet(g, slotG[ci]) })
 				c.pending = append(c.pending, c.cur)
 			case "cons":
 				nextR++
 				nextG++
 				r, g := nextR, nextG
-				rec.ev("ready_call", tv.M{"r": r})
+				rec.ev("ready_call", tv.M{"r": r, "pr": slotR[ci]})
 				c.cur = ctl.Go(name, func() {
 					err := s.Ready(callCtx)
-					rec.ev("ready_ret", tv.M{"r": r, "err": err != nil})
+					rec.ev("ready_ret", tv.M{"r": r, "pr": slotR[ci], "err": err != nil})
 					if err != nil {
 						return
 					}
-					rec.ev("get_call", tv.M{"g": g, "after": r})
-					doGet(g, r)
+					rec.ev("get_call", tv.M{"g": g, "pg": slotG[ci], "after": r})
+					doGet(g, slotG[ci])
 				})
 				c.pending = append(c.pending, c.cur)
 			}
@@ -564,7 +618,7 @@ func runScenario(b *tv.Batch, sc scenario, seed int64, ca *authority, tmp string
 		}
 		return 2
 	}
-	res := result{trace: tr}
+	res := result{trace: tr, htrace: htr, hbound: hbound}
 	err := d.Run()
 	if err == nil && sc.Cancel {
 		rec.ev("cancel", nil)
@@ -601,8 +655,14 @@ func runScenario(b *tv.Batch, sc scenario, seed int64, ca *authority, tmp string
 			hasRun = hasRun || o.Op == "run"
 		}
 	}
-	if !hasRun { // nobody called Run: do it now (context already cancelled) so that the waiting calls are released
-		go func() { _ = s.Run(runCtx) }()
+	if !hasRun { // nobody called Run: do it now (context already cancelled) so that the waiting calls are released;
+		// wait for it, so that its hook calls cannot leak into the next run
+		rdone := make(chan struct{})
+		go func() { _ = s.Run(runCtx); close(rdone) }()
+		select {
+		case <-rdone:
+		case <-time.After(2 * time.Second):
+		}
 	}
 	deadline := time.After(500 * time.Millisecond)
 	for _, c := range clients {
@@ -806,6 +866,7 @@ func TestCheck(t *testing.T) {
 	}
 	tmp := t.TempDir()
 	b := &tv.Batch{}
+	hb := &tv.Batch{}
 	var results []result
 	var scs []scenario
 	inconcl, deadlocks, skipped := 0, 0, 0
@@ -814,7 +875,7 @@ func TestCheck(t *testing.T) {
 		if sc.Prefix == nil {
 			sc.Prefix = []string{}
 		}
-		r := runScenario(b, sc, rng.Int63(), ca, tmp)
+		r := runScenario(b, hb, sc, rng.Int63(), ca, tmp)
 		results = append(results, r)
 		scs = append(scs, sc)
 		if r.err != nil {
@@ -850,13 +911,13 @@ func TestCheck(t *testing.T) {
 		{Name: "staged-notyetvalid-nodir", Dir: false, Mode: "random", Script: []answer{W(100, 1100), F("noid"), W(-30, 30), W(0, 120)},
 			Clients: [][]opSpec{runC, obs(3), {{Op: "cons", Rot: true}}}, Steps: []int{10, 59, 61}, MaxSteps: 200, Cancel: true},
 	}
-	nStaged := ev.Pick(6, 60)
+	nStaged := ev.Pick(4, 60)
 	for _, sc := range staged {
 		for i := 0; i < nStaged; i++ {
 			run(sc)
 		}
 	}
-	nTimeline := ev.Pick(150, 3000)
+	nTimeline := ev.Pick(120, 3000)
 	for i := 0; i < nTimeline; i++ {
 		run(genTimeline(rng, i))
 	}
@@ -864,7 +925,7 @@ func TestCheck(t *testing.T) {
 	// x the four outcomes of the initial fetch, eagerly and lazily; then random programs and schedules
 	var orderScs []scenario
 	orderScs = append(orderScs, orderScenarios()...)
-	nRandom := ev.Pick(150, 2000)
+	nRandom := ev.Pick(120, 2000)
 	for i := 0; i < nRandom; i++ {
 		orderScs = append(orderScs, genRandomOrder(rng, i))
 	}
@@ -933,7 +994,87 @@ func TestCheck(t *testing.T) {
 		i := idx[r.Trace]
 		e.Violation(keyOf(r.Why), r.Why, tv.M{"scenario": scs[i], "schedule": results[i].schedule, "trace": jb.TraceStrings(r.Trace), "at": r.At})
 	}
+
+	// binding of the implementation-shaped model: hook-level traces must be behaviours of Spiffe.tla (drift, not verdict)
+	jhb := &tv.Batch{}
+	unbound := 0
+	for _, r := range results {
+		if r.err != nil {
+			continue
+		}
+		if !r.hbound {
+			unbound++
+			continue
+		}
+		jhb.AppendTrace(hb.Trace(r.htrace))
+	}
+	hmissing, hres := tv.ValidateDoneChunked(tlc.Opts{Dir: "Spiffe", Module: "TraceSpiffeImpl", Config: "TraceSpiffeImpl.cfg", Workers: 16, Timeout: ev.Pick(6*time.Minute, 40*time.Minute), HeapMB: 12000}, jhb)
+	fmt.Printf("TLC model-binding validation (hook-level traces vs Spiffe.tla): ok=%v traces=%d not-explained=%d not-bound=%d distinct=%d wall=%s %s\n", hres.OK, jhb.Len(), len(hmissing), unbound, hres.Distinct, hres.Wall.Round(time.Millisecond), hres.What)
+	e.Set("impl_traces_validated", int64(jhb.Len()))
+	e.Set("impl_drift_traces", int64(len(hmissing)))
+	e.Set("drift", len(hmissing) > 0 || !hres.OK)
+	if !hres.OK {
+		fmt.Printf("DRIFT property=C19 the model-binding validation did not run: %s %s\n", hres.What, hres.Tail(800))
+	} else if len(hmissing) > 0 {
+		fmt.Printf("DRIFT property=C19 %d hook-level traces are not behaviours of Spiffe.tla (model and code diverge; not a violation by itself), first: %v\n", len(hmissing), jhb.TraceStrings(hmissing[0]))
+	}
+	implSelfTest(e, jhb, hmissing)
 	selfTest(e)
+}
+
+// self-test of the model binding: an accepted hook-level trace must stop being accepted when a decision point is
+// removed from it (the rename of dir.Write, else Run's beforeLock point) or when an issuer request is moved in time
+func implSelfTest(e *ev.Evidence, jhb *tv.Batch, missing []int) {
+	bad := map[int]bool{}
+	for _, m := range missing {
+		bad[m] = true
+	}
+	pick := -1
+	for i := 0; i < jhb.Len() && pick < 0; i++ {
+		if bad[i] {
+			continue
+		}
+		for _, l := range jhb.Trace(i) {
+			if strings.Contains(string(l), `"ev":"dir.rename"`) {
+				pick = i
+				break
+			}
+		}
+	}
+	if pick < 0 {
+		return
+	}
+	orig := jhb.Trace(pick)
+	var noRename, movedReq [][]byte
+	dropped, moved := false, false
+	for _, l := range orig {
+		if !dropped && strings.Contains(string(l), `"ev":"dir.rename"`) {
+			dropped = true
+			continue
+		}
+		noRename = append(noRename, l)
+	}
+	for _, l := range orig {
+		if !moved && strings.Contains(string(l), `"ev":"req"`) {
+			moved = true
+			l = []byte(strings.Replace(string(l), `"now":`, `"now":1`, 1)) // prefixes a digit: another instant
+		}
+		movedReq = append(movedReq, l)
+	}
+	tb := &tv.Batch{}
+	tb.AppendTrace(orig)
+	tb.AppendTrace(noRename)
+	tb.AppendTrace(movedReq)
+	miss, res := tv.ValidateDone(tlc.Opts{Dir: "Spiffe", Module: "TraceSpiffeImpl", Config: "TraceSpiffeImpl.cfg", Workers: 2, Timeout: 2 * time.Minute}, tb)
+	got := map[int]bool{}
+	for _, m := range miss {
+		got[m] = true
+	}
+	ok := res.OK && !got[0] && got[1] && got[2]
+	e.Set("impl_binding_selftest", tv.M{"accepted_trace_rejected_without_rename_and_with_moved_request": ok})
+	if !ok {
+		e.Inconclusive(fmt.Sprintf("model-binding self-test failed: missing=%v %s %s", miss, res.What, res.Tail(600)))
+	}
 }
 
 // binding self-test: hand-written traces; the valid one must be accepted, each corrupted one rejected
